@@ -187,11 +187,24 @@ m("C10", "proof",
   "leaves the entire handler state unchanged (C10_dest_rejected_pdu_changes_nothing, C10_source_..., via "
   "ReadOnly combinators); the receiver's packets-ready counter equals the queue length after every call "
   "sequence (C10_dest_counter_is_queue_length, generated whole-FSM invariant), so the UnretrievedPdus guards "
-  "fire only with PDUs really queued (C10_dest_unretrieved_guard, C10_source_unretrieved_guard). Absence of "
-  "internal errors from every reachable state is NOT proved; it is explored (the model raises at every assert / "
-  "None-dereference site and is tied to the code by correspondence).",
-  "Lean 4 theorems (read-only admission, whole-FSM counter invariant) + malformed-stream exploration", "§6 C10",
-  ["no_internal_error is exploration-level; one listed finding (NAK base larger than max_packet_len)"])
+  "fire only with PDUs really queued (C10_dest_unretrieved_guard, C10_source_unretrieved_guard). NO INTERNAL "
+  "ERROR FOR EVERY HISTORY: Dest.Safe.DInv / Source.Safe.SInv are invariants of the two state machines (true "
+  "of a new handler, preserved by every public call whether it returns or raises, by set_handler, by injected "
+  "write rejections, by other users of the sequence number provider), and from a state satisfying them no "
+  "public call raises an assertion, attribute, type, key, value or struct error "
+  "(C10_dest_no_internal_error_all_histories, C10_source_no_internal_error_all_histories; one Hoare triple per "
+  "model method in Lemmas/SafeDest.lean and Lemmas/SafeSource.lean, Std.Do verification conditions closed by "
+  "grind). Hypotheses, each the trace of a listed finding or of the property's own scope: a NAK with the inbound "
+  "PDU's header fits max_packet_len (Fits), the derived file segment length exists and is positive (SegFits), a "
+  "put request names source and destination file together (ReqOk), injected filestore failures are OSErrors.",
+  "Lean 4 theorems (Hoare triples over every model method: invariant + no internal error for all histories; "
+  "read-only admission; whole-FSM counter invariant) + malformed-stream exploration", "§6 C10, §11",
+  ["the model raises at every assert / None dereference / ValueError site of the Python; that correspondence is "
+   "checked by differential execution, not proved",
+   "Fits / SegFits / ReqOk hypotheses (outside them: listed finding nak-base-exceeds-max-packet-len; ValueError of "
+   "_calculate_max_file_seg_len; AttributeError for a put request with only one file name)",
+   "filestore exceptions (FileNotFoundError etc. of a user-supplied filestore) are not internal errors in the "
+   "theorem; the oracle flags them on the default filestores"])
 m("C12", "proof",
   "cancel requests with right and wrong transaction ids injected at random points of end-to-end sessions and "
   "of single-handler sessions, all modes/closure/disposition settings; EOF (cancel) PDUs from the scripted sender",
